@@ -22,7 +22,9 @@
 
    Quirks kept on purpose (they are what the code does):
      * Decide reads BatchNumber at decision time, not the number of instructions already emitted;
-     * a SendRetry re-emits without consulting the results summary;
+     * a SendRetry used to re-emit without consulting the results summary (finding F34); since the fix
+       (FixF34 = TRUE, the code as it is now) it is skipped once the summary holds a non-retryable error;
+       FixF34 = FALSE keeps the old behaviour (RelaySM_nr.cfg shows the counter-example);
      * after a Stop decision the loop keeps running until validateReturnCondition fires, the
        processing context expires or a success arrives;
      * once processingCtx is done WaitForResults returns immediately, so the reader keeps producing
@@ -263,7 +265,7 @@ NoResendAfterSend == [][(Sel # "stateless" /\ batch >= 1) => obs'.decided = obs.
 
 \* no retry (of any kind) once the machine has seen a non-retryable node / protocol error
 NoRetryAfterNR == [][obs.stopNR => obs'.decided = obs.decided]_vars
-\* the same restricted to Decide (the SendRetry path is the known gap, see docs/notes/C34.md)
+\* the same restricted to Decide (what held before the F34 fix, see docs/notes/C34.md)
 NoDecideRetryAfterNR ==
   [][(obs.stopNR /\ obs'.decided > obs.decided) => (bu # <<>> /\ bu' = Tail(bu))]_vars
 
